@@ -20,18 +20,21 @@ import (
 
 // Engine holds the loaded program and all contracts.
 type Engine struct {
-	Fset      *token.FileSet
-	Prog      *ssa.Program
-	Pkgs      []*packages.Package
-	SSAPkgs   []*ssa.Package
-	Contracts map[string]*spec.FuncContract // by function key (ssa Function.String())
-	Iface     map[string]*spec.FuncContract // "io.Reader.Read"
-	SpecFuncs map[string]*spec.SpecFunc
-	Axioms    []*spec.Axiom
-	RawSMT    []string
-	typeTags  map[string]int
-	theory    map[string]string
-	srcLines  map[string][]string
+	Fset       *token.FileSet
+	Prog       *ssa.Program
+	Pkgs       []*packages.Package
+	SSAPkgs    []*ssa.Package
+	Contracts  map[string]*spec.FuncContract // by function key (ssa Function.String())
+	Iface      map[string]*spec.FuncContract // "io.Reader.Read"
+	SpecFuncs  map[string]*spec.SpecFunc
+	Bundles    map[string]*spec.HeapBundle
+	bundleKeys map[string][][2]string
+	Axioms     []*spec.Axiom
+	RawSMT     []string
+	RawSMTLate []string // emitted after the spec function declarations (package-level axioms)
+	typeTags   map[string]int
+	theory     map[string]string
+	srcLines   map[string][]string
 	// Options
 	CheckOverflow bool
 	WorkDir       string
@@ -69,7 +72,7 @@ func Load(dir string, patterns ...string) (*Engine, error) {
 	e := &Engine{
 		Prog: prog, Pkgs: pkgs, SSAPkgs: spkgs,
 		Contracts: map[string]*spec.FuncContract{}, Iface: map[string]*spec.FuncContract{},
-		SpecFuncs: map[string]*spec.SpecFunc{}, typeTags: map[string]int{}, srcLines: map[string][]string{},
+		SpecFuncs: map[string]*spec.SpecFunc{}, Bundles: map[string]*spec.HeapBundle{}, bundleKeys: map[string][][2]string{}, typeTags: map[string]int{}, srcLines: map[string][]string{},
 		Assumptions: map[string]bool{}, TimeoutS: 10,
 	}
 	if len(pkgs) > 0 {
@@ -111,6 +114,9 @@ func (e *Engine) AddContractFile(path, pkgPath string) error {
 	for _, sf := range f.Specs {
 		e.SpecFuncs[sf.Name] = sf
 	}
+	for _, hb := range f.Bundles {
+		e.Bundles[hb.Name] = hb
+	}
 	e.Axioms = append(e.Axioms, f.Axioms...)
 	e.RawSMT = append(e.RawSMT, f.RawSMT...)
 	return nil
@@ -118,7 +124,25 @@ func (e *Engine) AddContractFile(path, pkgPath string) error {
 
 // AddContractFilesIn registers every verif_contracts*.go of the loaded packages.
 func (e *Engine) AddContractFilesIn() error {
+	var all []*packages.Package
+	seen := map[string]bool{}
+	packages.Visit(e.Pkgs, nil, func(p *packages.Package) {
+		if seen[p.PkgPath] {
+			return
+		}
+		seen[p.PkgPath] = true
+		// initial packages and dependencies that belong to the repository under verification
+		if strings.HasPrefix(p.PkgPath, "github.com/200sc/bebop") {
+			all = append(all, p)
+		}
+	})
 	for _, p := range e.Pkgs {
+		if !strings.HasPrefix(p.PkgPath, "github.com/200sc/bebop") {
+			all = append(all, p)
+		}
+	}
+	sort.Slice(all, func(i, j int) bool { return all[i].PkgPath < all[j].PkgPath })
+	for _, p := range all {
 		if len(p.GoFiles) == 0 {
 			continue
 		}
@@ -322,3 +346,18 @@ func (e *Engine) AssumedContracts() []string {
 	sort.Strings(out)
 	return out
 }
+
+// ElemMapKey / FieldMapKey / SortOf expose the heap naming scheme to the spec generator.
+func ElemMapKey(t types.Type) string                     { return elemMapKey(t) }
+func FieldMapKey(root types.Type, names []string) string { return structFieldMapKey(root, names) }
+func SortOf(t types.Type) string                         { return sortOf(t) }
+
+// BundleKeys resolves a heap bundle (declared in a contract file) to (cell key, sort) pairs.
+func (e *Engine) BundleKeys(name string) [][2]string {
+	d := &fnState{e: e, declared: map[string]bool{}, cellSort: map[string]string{}, notes: map[string]bool{}, strLits: map[string]string{}}
+	ctx := &specCtx{f: d, binds: map[string]SV{}, env: &env{cells: map[string]SV{}}, old: &env{cells: map[string]SV{}}, callee: true}
+	return e.bundle(name, ctx)
+}
+
+// TypesPkg returns the go/types package with the given path.
+func (e *Engine) TypesPkg(path string) *types.Package { return e.typesPkg(path) }
